@@ -121,6 +121,8 @@ type Env struct {
 	Overlap   bool // scenario had >= 2 overlapping actors / in-flight operations
 	Note      map[string]any
 	simSec    float64
+	unstable  string // set when the run met a source of order the simulator does not control (DESIGN 8.1)
+	RunIndex  uint64 // index of the run within the batch (systematic enumeration of short fault scripts)
 }
 
 const traceKeepMax = 400
@@ -231,6 +233,18 @@ func (e *Env) State(format string, args ...any) {
 	h := sha256.Sum256([]byte(s))
 	e.mu.Lock()
 	e.states[string(h[:8])] = struct{}{}
+	e.mu.Unlock()
+}
+
+// Unstable marks the run as having met nondeterminism the simulator neither controls nor can
+// canonicalise (e.g. Go map iteration order inside gostatsd deciding how sources are grouped into
+// provider calls). Verdicts stay sound; the trace hash of such runs is not compared across
+// executions and a failure is confirmed by class only.
+func (e *Env) Unstable(reason string) {
+	e.mu.Lock()
+	if e.unstable == "" {
+		e.unstable = reason
+	}
 	e.mu.Unlock()
 }
 
@@ -380,12 +394,13 @@ type RunResult struct {
 	SimSeconds float64
 	Overlap    bool
 	Note       map[string]any
+	Unstable   string
 }
 
 var logSetup sync.Once
 
 // RunOne executes one scenario of p, decided entirely by tape, inside a fresh synctest bubble.
-func RunOne(t *testing.T, p Property, tape *Tape, rngSeed uint64) *RunResult {
+func RunOne(t *testing.T, p Property, tape *Tape, rngSeed uint64, runIdx uint64) *RunResult {
 	logSetup.Do(func() {
 		logrus.SetOutput(io.Discard)
 		logrus.SetLevel(logrus.PanicLevel)
@@ -413,6 +428,7 @@ func RunOne(t *testing.T, p Property, tape *Tape, rngSeed uint64) *RunResult {
 		}()
 		synctest.Test(t, func(t *testing.T) {
 			env = newEnv(t, p.ID(), tape)
+			env.RunIndex = runIdx
 			defer func() {
 				env.simSec = time.Since(env.start).Seconds()
 				if r := recover(); r != nil {
@@ -439,6 +455,10 @@ func RunOne(t *testing.T, p Property, tape *Tape, rngSeed uint64) *RunResult {
 	res.SimSeconds = env.simSec
 	res.Overlap = env.Overlap
 	res.Note = env.Note
+	res.Unstable = env.unstable
+	if res.Unstable != "" {
+		res.TraceHash = "unstable:" + res.Unstable
+	}
 	return res
 }
 
